@@ -25,9 +25,15 @@ def esc(v):
     return v.replace('&', '&amp;').replace('"', '&quot;').replace('<', '&lt;')
 
 
-def gen_elem(e, attrs, inner):
-    """-> (xsl text, reference (uri, local, attrs dict (uri,local)->value, children list)) or None if the combination is not meaningful"""
+def gen_elem(e, attrs, inner_fn, scope=None):
+    """-> (xsl text, reference (uri, local, attrs dict (uri,local)->value, children list)) or None if the combination is not
+    meaningful. scope: namespaces in scope IN THE STYLESHEET at this instruction (prefix -> URI, '' = default);
+    inner_fn(scope) builds the nested constructor, which sees the declarations of an enclosing literal result element."""
+    scope = dict(STYLE_NS) if scope is None else dict(scope)
     k = e[0]
+    inner_scope = dict(scope)
+    if k == 'lre' and e[2] is not None:
+        inner_scope[e[1] or ''] = e[2]
     aset = any(a and a[0] == 'aset' for a in attrs)
     ainstr = ''
     ref_attrs = {}
@@ -43,7 +49,7 @@ def gen_elem(e, attrs, inner):
                 return None
             nm = a[1]
             lre_attr_text += ' %s="L"' % nm
-            ref_attrs[(STYLE_NS[nm.split(':')[0]] if ':' in nm else '', nm.split(':')[-1])] = 'L'
+            ref_attrs[(inner_scope[nm.split(':')[0]] if ':' in nm else '', nm.split(':')[-1])] = 'L'
     for a in attrs:
         if a is None or a[0] in ('aset', 'lreattr'):
             continue
@@ -60,12 +66,15 @@ def gen_elem(e, attrs, inner):
             elif pf == 'x':
                 uri = 'u2'
             elif pf:
-                uri = STYLE_NS[pf]
+                uri = inner_scope[pf]
             else:
                 uri = ''
             ref_attrs[(uri, lo)] = val
     uas = ' xsl:use-attribute-sets="s1"' if aset else ''
     uas2 = ' use-attribute-sets="s1"' if aset else ''
+    inner = inner_fn(inner_scope) if inner_fn else None
+    if inner_fn and inner is None:
+        return None
     body = ainstr + (inner[0] if inner else '')
     kids = [inner[1]] if inner else []
     if k == 'lre':
@@ -74,11 +83,10 @@ def gen_elem(e, attrs, inner):
         decl = ''
         if u is not None:
             decl = ' xmlns%s="%s"' % ((':' + pf) if pf else '', u)
-        elif pf:
+        elif pf and pf not in scope:
             return None
         txt = '<%s%s%s%s>%s</%s>' % (qn, decl, uas, lre_attr_text, body, qn)
-        # an unprefixed LRE without its own declaration is in no namespace only if no default namespace is inherited in the STYLESHEET
-        ref = (u or '', 'e', ref_attrs, kids)
+        ref = (inner_scope.get(pf or '', ''), 'e', ref_attrs, kids)
         return txt, ref
     if k == 'elem':
         nm, ns = e[1], e[2]
@@ -90,14 +98,14 @@ def gen_elem(e, attrs, inner):
             nsattr = ' namespace="%s"' % ns
             uri = ns
         else:
-            uri = STYLE_NS[nm.split(':')[0]] if ':' in nm else ''
+            uri = scope[nm.split(':')[0]] if ':' in nm else scope.get('', '')
         txt = '<xsl:element name="%s"%s%s>%s</xsl:element>' % (nm, nsattr, uas2, body)
         return txt, (uri, nm.split(':')[-1], ref_attrs, kids)
     if k == 'copy':
         txt = '<xsl:for-each select="/*"><xsl:copy%s>%s</xsl:copy></xsl:for-each>' % (uas2, body)
         return txt, ('u3', 'x', ref_attrs, kids)
     if k == 'copyof':
-        if attrs != [None] or inner:
+        if attrs != [None] or inner_fn:
             return None
         txt = '<xsl:copy-of select="/*"/>'
         return txt, ('u3', 'x', {('u9', 'k'): 'v', ('', 'k'): 'w'}, [('u3', 'y', {('u9', 'm'): '1'}, [])])
@@ -110,16 +118,16 @@ def ref_canon(r):
 
 
 def gen_cases(tier):
-    """yields (family, excl, xsl fragment, reference)"""
+    """yields (family, excl, xsl fragment, reference, component fragments)"""
     thorough = tier == 'thorough'
-    for excl in (None, 'p', 'p q', '#default'):
+    for excl in (None, 'p', 'p q'):
         for e1 in ELEMS:
             for a1 in ATTRS:
                 g1 = gen_elem(e1, [a1], None)
                 if g1 is None:
                     continue
                 if excl is None or (thorough or a1 is None):
-                    yield ('one', excl, g1[0], g1[1])
+                    yield ('one', excl, g1[0], g1[1], ())
                 if e1[0] == 'copyof':
                     continue
                 if excl not in (None, 'p'):
@@ -131,19 +139,18 @@ def gen_cases(tier):
                         g2 = gen_elem(e2, [a2], None)
                         if g2 is None:
                             continue
-                        g = gen_elem(e1, [a1], g2)
+                        g = gen_elem(e1, [a1], lambda sc: gen_elem(e2, [a2], None, sc))
                         if g is None:
                             continue
-                        yield ('two', excl, g[0], g[1])
+                        yield ('two', excl, g[0], g[1], (g1[0], g2[0]))
                         if thorough and a1 is None and a2 is None and excl is None:
                             for e3 in ELEMS[:9]:
                                 g3 = gen_elem(e3, [None], None)
-                                gg2 = gen_elem(e2, [None], g3)
-                                if g3 is None or gg2 is None:
+                                if g3 is None:
                                     continue
-                                gg = gen_elem(e1, [None], gg2)
+                                gg = gen_elem(e1, [None], lambda sc: gen_elem(e2, [None], lambda sc2: gen_elem(e3, [None], None, sc2), sc))
                                 if gg:
-                                    yield ('three', excl, gg[0], gg[1])
+                                    yield ('three', excl, gg[0], gg[1], (g1[0], g2[0], g3[0]))
 
 
 def stylesheet(excl, frags):
@@ -176,18 +183,22 @@ def uris_used(n, acc):
 
 def shard_main(shard, nshards, tier):
     w = vlib.Worker('xdrv', stderr_path=os.path.join(vlib.BUILD, 'tmp', 'c14.%d.err' % shard))
-    counts = {'evaluations': 0, 'transformations': 0, 'nontrivial': 0}
+    counts = {'evaluations': 0, 'transformations': 0, 'nontrivial': 0, 'explained_by_failing_component': 0}
     viols = []
     samples = []
     B = 24
     groups = {}
+    ones = []
     for idx, case in enumerate(gen_cases(tier)):
+        if case[0] == 'one' and case[1] is None:
+            ones.append(case)        # every shard runs all single constructors first: they explain failures of the nests
         if idx % nshards != shard:
             continue
         groups.setdefault(case[1], []).append(case)
+    failing_single = set()
 
     def check_one(case, cnode):
-        fam, excl, frag, ref = case
+        fam, excl, frag, ref = case[:4]
         counts['evaluations'] += 1
         kids = [c for c in cnode.children if c.kind == R.ELEM]
         if len(ref[2]) or ref[0]:
@@ -217,7 +228,7 @@ def shard_main(shard, nshards, tier):
             r = w.request('tr', xsl, SRC)
         except vlib.WorkerDied as wd:
             if len(batch) == 1:
-                viols.append(('%s|fatal|%s' % (batch[0][0], batch[0][2]), {'xsl': xsl, 'stderr': wd.stderr_tail[-1500:]}))
+                note(batch[0], 'fatal', {'xsl': xsl, 'stderr': wd.stderr_tail[-1500:]})
                 return
             r = None
         counts['transformations'] += 1
@@ -233,8 +244,7 @@ def shard_main(shard, nshards, tier):
                     why = ('not-namespace-well-formed', str(e))
         if out is None:
             if len(batch) == 1:
-                viols.append(('%s|%s|%s' % (batch[0][0], why[0] if why else 'fatal', batch[0][2]),
-                              {'xsl': xsl, 'why': why, 'output': (r[2][:1500] if r else None), 'excl': excl}))
+                note(batch[0], why[0] if why else 'fatal', {'xsl': xsl, 'why': why, 'output': (r[2][:1500] if r else None), 'excl': excl})
                 return
             mid = len(batch) // 2
             run(batch[:mid], excl)
@@ -244,7 +254,26 @@ def shard_main(shard, nshards, tier):
         for case, cnode in zip(batch, cs):
             kind, det = check_one(case, cnode)
             if kind:
-                viols.append(('%s|%s|%s' % (case[0], kind, case[2]), dict(det, xsl_fragment=case[2], excl=excl)))
+                note(case, kind, dict(det, xsl_fragment=case[2], excl=excl))
+
+    def note(case, kind, det):
+        if collecting[0]:
+            failing_single.add(case[2])
+            if shard == 0:
+                viols.append(('one|%s|%s' % (kind, case[2]), det))
+            return
+        comps = case[4] if len(case) > 4 else ()
+        if any(c in failing_single for c in comps):
+            counts['explained_by_failing_component'] = counts.get('explained_by_failing_component', 0) + 1
+            return
+        if case[0] == 'one' and case[1] is None:
+            return      # already reported by the pre-pass (shard 0)
+        viols.append(('%s|%s|%s%s' % (case[0], kind, case[2], ' [exclude-result-prefixes=%s]' % case[1] if case[1] else ''), det))
+
+    collecting = [True]
+    for i in range(0, len(ones), B):
+        run(ones[i:i + B], None)
+    collecting[0] = False
 
     for excl, cases in groups.items():
         for i in range(0, len(cases), B):
